@@ -2,6 +2,7 @@ import PV.Model.Eval
 import PV.Model.Ops
 import PV.Model.Traverse
 import PV.Driver.GAOps
+import PV.Driver.AlgoFftOps
 import PV.Driver.CompileOps
 import PV.Driver.EqHashOps
 import PV.Driver.CCodeOps
@@ -204,6 +205,7 @@ def handlers : List (Sexp → Option Sexp) :=
    , handleCCode
    , handleEqHash
    , handleCompile
+   , handleC19Fft
    -- HANDLERS
   ]
 
